@@ -26,13 +26,20 @@ func InitGenesis(ctx sdk.Context, k keeper.Keeper, data types.GenesisState) {
 			panic(fmt.Errorf("unknown servcie request context: %s", entry.Feed.RequestContextID))
 		}
 
-		for _, value := range entry.Values {
+		// values are exported newest first; restore them oldest first under
+		// consecutive batch counters ending at the context's current one
+		n := uint64(len(entry.Values))
+		latest := reqCtx.BatchCounter
+		if latest+1 < n {
+			latest = n - 1
+		}
+		for i := n; i > 0; i-- {
 			k.SetFeedValue(
 				ctx,
 				entry.Feed.FeedName,
-				reqCtx.BatchCounter,
+				latest-(i-1),
 				entry.Feed.LatestHistory,
-				value,
+				entry.Values[i-1],
 			)
 		}
 
